@@ -26,10 +26,12 @@ RULE = ('sequences of 0-4 graphs interpreted from WF-T trees with C01 metadata (
         'values, values containing ; ( ) " # VT FF NEL U+2028 U+2029 NBSP) x indent in {-1, None, 3} x '
         'line terminators {LF, CRLF, CR, mixed} x containers {str, list of lines without and with '
         'terminators, io.StringIO(newline=None), plain io.StringIO (texts without CR), real UTF-8 '
-        'file by name and by handle} x separators {blank line, newline, space, none}; dump to a name / '
+        'file by name and by handle, lines with CRLF / CR / their own terminators, plain StringIO over CRLF '
+        'text; file encodings utf-8, utf-16, utf-32-le, utf-8-sig} x separators {blank line, newline, space, none}; dump to a name / '
         'to a handle vs dumps; models default and AMR. Each decode is recorded as an event '
         '(case, container, digest) and the digests of one case must coincide. Non-trivial: >=2 '
-        'graphs, or metadata with an exotic separator.')
+        'graphs, or metadata with an exotic separator. One stream of 2600-5000 graphs (>64 Ki characters) per '
+        'shard through string, file name, Path, handle, lines, StringIO and dump/load.')
 ANCHORS = ['penman.codec:_load', 'penman.codec:_loads', 'penman.codec:_dump', 'penman.codec:_dumps',
            'penman.codec:_dump_stream', 'penman.codec:PENMANCodec.iterdecode', 'penman._lexer:lex',
            'penman._parse:_parse_comments']
